@@ -31,7 +31,12 @@ try:
     p = sh("git apply SEED/%s/patch.diff" % n); verdict["applies"] = p.returncode == 0
     p = sh("go build -p 4 " + " ".join(pkgs)); verdict["builds"] = p.returncode == 0
     p = sh("go vet " + " ".join(pkgs)); verdict["vets"] = p.returncode == 0
-    p = sh("go test -p 2 -count=1 -timeout 60m " + " ".join(pkgs + ["./" + e for e in extra])); verdict["existing_tests_pass"] = p.returncode == 0
+    # timing-sensitive tests of some packages flake under machine load (also on the pristine tree): up to 3 attempts
+    for attempt in range(3):
+        p = sh("go test -p 2 -count=1 -timeout 60m " + " ".join(pkgs + ["./" + e for e in extra]))
+        if p.returncode == 0:
+            break
+    verdict["existing_tests_pass"] = p.returncode == 0
     p = sh("sh SEED/%s/demo.sh" % n); verdict["demo_with_fails"] = p.returncode != 0
     okall = all(verdict.values())
     print("VERDICT", pid, n, "CONFIRMED" if okall else "REJECTED", verdict)
